@@ -1545,7 +1545,7 @@ bool SPxSolverBase<R>::performSolutionPolishing()
                if(useIntegrality && integerVariables[this->number(SPxColId(polishId))] == 0)
                   continue;
 
-               stat = ds.colStatus(i);
+               stat = ds.colStatus(this->number(polishId));
             }
 
             if(stat == SPxBasisBase<R>::Desc::P_ON_LOWER || stat ==  SPxBasisBase<R>::Desc::P_ON_UPPER)
